@@ -4,28 +4,18 @@ import os
 
 VERIF = os.path.dirname(os.path.dirname(os.path.abspath(__file__)))
 
-# id -> (technique, level text, level note, design ref)
-CLAIMS = {
-    "C15": ("Lean 4 theorems over all Int-valued capacities; field operators regenerated from the Python AST each run; differential line-protocol check of the lifted model",
-            "Proof: 15 Lean theorems (cancel, commutativity, free+allocated, fits <-> no negative field of the difference, negative fields by name, "
-            "equality laws) hold for every capacity value over any field list; the per-field operators they are about are translated from the "
-            "source of Capacities/FreeCapacity on every run, so an edited operator is re-proved or fails. A law that fails on the code is "
-            "replayed as a concrete operand pair.",
-            "Trusted: Lean kernel (+propext, Classical.choice, Quot.sound), the AST patterns of gen/capops.py, the lifting of field operators over "
-            "__dict__ (checked differentially on ~14k operations per quick run), Python int = Lean Int.",
-            "4/C15"),
-    "C18": ("Lean 4 theorems for every catalogue and every request in N^3 (sufficient, Pareto-minimal, fallback, class lemma) + decide over the complete regenerated catalogue tables; differential sweep over both ends of every threshold class",
-            "Proof: for any catalogue and any (core, ram, disk) request the modelled selection returns a satisfying size whenever one exists, such that no "
-            "other satisfying size is componentwise smaller-or-equal, and the last entry otherwise (which, for the regenerated current catalogue, is "
-            "kernel-checked to dominate every entry); the answer depends only on the request's threshold class, so the harness's sweep over both ends "
-            "of every class validates the one modelled piece (CPython's list.sort head under the partial order) completely on each run. Components: "
-            "lookup finds every model and alias at its own entry (no shadowing, kernel-checked on the regenerated table), and a generated component "
-            "has exactly the entry's interfaces, speeds, kinds, unit counts with ids/labels positional (theorem over all argument lists).",
-            "Trusted: Lean kernel (+propext, Classical.choice, Quot.sound); gen/catalog.py (JSON tables, AST shape of map_capacities_to_instance and constants of "
-            "generate_component); list.sort's head modelled by a running-head fold (validated exhaustively per class each run); distinct instance names taken "
-            "from dict semantics (translator rejects duplicates); uuid4 freshness.",
-            "4/C18"),
-}
+# claims/<Cxx>.json: {"technique", "text", "note", "design_ref"} — one file per claimed property
+def load_claims():
+    out = {}
+    d = os.path.join(VERIF, "claims")
+    for fn in sorted(os.listdir(d)):
+        if fn.endswith(".json"):
+            c = json.load(open(os.path.join(d, fn)))
+            out[fn[:-5]] = (c["technique"], c["text"], c["note"], c["design_ref"])
+    return out
+
+
+CLAIMS = load_claims()
 
 PENDING_REASON = "check not built yet in this round (planned in DESIGN.md section 4); not claimed until its machinery exists"
 
